@@ -14,6 +14,13 @@ pub trait Engine: Sync + Send + 'static {
     fn replay(&self, _s: &'static dyn ShapeDyn, _case: &serde_json::Value) -> bool {
         false
     }
+    /// work that is not per shape (run once, before the shapes)
+    fn global(&self, _args: &Args) -> Accs {
+        Accs::new()
+    }
+    fn replay_global(&self, _case: &serde_json::Value) -> bool {
+        false
+    }
     /// cost hint for load balancing (bigger first)
     fn cost(&self, _s: &dyn ShapeDyn) -> usize {
         1
@@ -45,6 +52,12 @@ pub fn run_engine<E: Engine>(e: E) -> ! {
         let txt = std::fs::read_to_string(path).expect("read replay file");
         let j: serde_json::Value = serde_json::from_str(&txt).expect("replay json");
         let case = if j.get("replay").is_some() { j["replay"].clone() } else { j.clone() };
+        if case.get("global").is_some() {
+            let a = e.replay_global(&case);
+            let b = e.replay_global(&case);
+            println!("replay: reproduced={} (second run: {})", a, b);
+            std::process::exit(if a != b { 2 } else if a { 1 } else { 0 });
+        }
         let shape = case["shape"].as_str().expect("replay.shape").to_string();
         for s in &shapes {
             if s.id() == shape {
@@ -70,6 +83,11 @@ pub fn run_engine<E: Engine>(e: E) -> ! {
     let jobs = &shapes;
     let n_threads = args.threads.max(1).min(jobs.len().max(1));
     let e = &e;
+    if args.only.is_none() {
+        for (p, a) in e.global(&args) {
+            rep.merge(p, a);
+        }
+    }
     std::thread::scope(|s| {
         for _ in 0..n_threads {
             s.spawn(|| loop {
